@@ -855,7 +855,36 @@ func (env *specEnv) inlineSpec(sd *specFunc, args []Val) Val {
 			i++
 		}
 	}
-	ret := sd.decl.Body.List[0].(*ast.ReturnStmt)
+	ret, ok := sd.decl.Body.List[0].(*ast.ReturnStmt)
+	if !ok {
+		// uninterpreted specification function: an SMT function of the (flattened) argument values
+		c := u.C
+		var ts []*Term
+		var ss []Sort
+		add := func(t *Term) { ts = append(ts, t); ss = append(ss, t.S) }
+		for _, a := range args {
+			switch x := a.(type) {
+			case *Term:
+				add(x)
+			case *SliceV:
+				add(x.Base)
+				add(x.Off)
+				add(x.Len)
+			case *IfaceV:
+				add(x.Tag)
+				add(x.Ptr)
+			default:
+				panic("uninterpreted spec function: unsupported argument")
+			}
+		}
+		rt := sd.bc.Sig.Results().At(0).Type()
+		_, rs, ok := scalarKind(rt)
+		if !ok {
+			panic("uninterpreted spec function must return a scalar")
+		}
+		name := c.DeclareUF("spec_"+sd.decl.Name.Name, ss, rs)
+		return c.App(name, rs, ts...)
+	}
 	return sub.eval(ret.Results[0])
 }
 
@@ -886,7 +915,7 @@ func (env *specEnv) convert(arg ast.Expr, to types.Type) Val {
 func (env *specEnv) identity(e ast.Expr) *Term {
 	t := env.typeOf(e)
 	switch t.Underlying().(type) {
-	case *types.Pointer:
+	case *types.Pointer, *types.Map, *types.Chan:
 		return env.evalTerm(e)
 	case *types.Interface:
 		return env.eval(e).(*IfaceV).Ptr
